@@ -29,6 +29,9 @@ type c07uSys struct {
 	scheme  string
 	tc      bool // UDP replies are truncated
 	callers int
+	tcpSilent bool          // the TCP side accepts the connection and never answers
+	timeout   time.Duration // callers' deadline (default 3 s)
+	retAt     []time.Duration
 	conns   []*fk.Conn
 	dials   []string
 	errs    []error
@@ -71,6 +74,9 @@ func (k c07uSink) Dial(ctx context.Context, network, addr string) (stdnet.Conn, 
 			msgs, rest := fk.Unframe(stream)
 			stream = rest
 			for _, m := range msgs {
+				if s.tcpSilent {
+					continue
+				}
 				a.Deliver(fk.Frame(fk.Answer(m, 78)))
 			}
 			return nil
@@ -101,16 +107,20 @@ func (s *c07uSys) run() {
 		panic(err)
 	}
 	s.errs = make([]error, s.callers)
+	s.retAt = make([]time.Duration, s.callers)
+	if s.timeout == 0 {
+		s.timeout = 3 * time.Second
+	}
 	var wg vs.WaitGroup
 	for i := 0; i < s.callers; i++ {
 		i := i
 		wg.Add(1)
 		vs.GoNamed(fmt.Sprintf("caller%d", i), func() {
 			defer wg.Done()
-			ctx, cancel := vs.WithTimeout(context.Background(), 3*time.Second)
+			ctx, cancel := vs.WithTimeout(context.Background(), s.timeout)
 			defer cancel()
 			r, err := u.ExchangeContext(ctx, fk.Query(uint16(0x4D00+i), fmt.Sprintf("c07u-%d.example.", i), 1))
-			s.errs[i] = err
+			s.errs[i], s.retAt[i] = err, vs.Elapsed()
 			if r != nil {
 				pool.ReleaseBuf(r)
 			}
@@ -128,6 +138,8 @@ func (s *c07uSys) run() {
 			vs.Block("closer.gate", nil, func() bool { return s.firstConsumed || s.done == s.callers })
 		case 2:
 			vs.Block("closer.gate", nil, func() bool { return len(s.conns) >= 2 || s.done == s.callers })
+		case 3:
+			vs.Block("closer.gate", nil, func() bool { return s.done == s.callers })
 		}
 		u.Close()
 		s.closeReturned = true
@@ -151,11 +163,18 @@ func (s *c07uSys) run() {
 }
 
 func c07uScenario(name, scheme string, tc bool, callers, d int) vr.Scenario {
+	return c07uScenarioT(name, scheme, tc, callers, d, false, 0)
+}
+
+func c07uScenarioT(name, scheme string, tc bool, callers, d int, tcpSilent bool, timeout time.Duration) vr.Scenario {
 	var sys *c07uSys
 	return vr.Scenario{Name: name, P: d, D: d, Horizon: 10 * time.Minute,
 		Body: func() {
-			sys = &c07uSys{scheme: scheme, tc: tc, callers: callers}
+			sys = &c07uSys{scheme: scheme, tc: tc, callers: callers, tcpSilent: tcpSilent, timeout: timeout}
 			sys.gate = vs.Choose(3)
+			if tcpSilent {
+				sys.gate = 3 // Close only after the calls are back: their own deadline must end them
+			}
 			sys.run()
 		},
 		Check: func(x *vs.Exec) (string, *vs.Violation) {
@@ -172,6 +191,11 @@ func c07uScenario(name, scheme string, tc bool, callers, d int) vr.Scenario {
 			}
 			if !s.finished || s.done != s.callers || !s.closeReturned {
 				return V("hang", fmt.Sprintf("callers or Close never returned; parked: %v", x.Blocked))
+			}
+			for i, at := range s.retAt {
+				if x.EarlyTimers == 0 && at > s.timeout {
+					return V("late-after-deadline", fmt.Sprintf("call %d had a deadline of %v and returned at %v", i, s.timeout, at))
+				}
 			}
 			if len(x.Blocked) > 0 {
 				return V("goroutine-leak", fmt.Sprintf("threads of the upstream are still parked at quiescence: %v", x.Blocked))
@@ -210,6 +234,8 @@ func TestVerifC07u(t *testing.T) {
 		c07uScenario("udp-tc-c1-closer", "udp", true, 1, d+1),
 		c07uScenario("udp-tc-c2-closer", "udp", true, 2, d),
 		c07uScenario("udp-notc-c2-closer", "udp", false, 2, d),
+		c07uScenarioT("udp-tc-c1-tcp-silent-deadline1s", "udp", true, 1, d, true, time.Second),
+		c07uScenarioT("tcp-c1-silent-deadline1s", "tcp", false, 1, d, true, time.Second),
 		c07uScenario("tcp-c2-closer", "tcp", false, 2, d),
 		c07uScenario("tcp+pipeline-c2-closer", "tcp+pipeline", false, 2, d),
 	}
